@@ -12,14 +12,18 @@ type PropFunc func(r *core.Run)
 
 var registry = map[string]PropFunc{}
 
+// SelfTestHook is set by the driver: it runs the mutant corpus of a property (thorough tier).
+var SelfTestHook func(r *core.Run)
+
 // RunProperty runs a property's rules and returns the process exit code.
-func RunProperty(p *core.Program, prop, tier string, seed int, verif string) (code int) {
+func RunProperty(p *core.Program, prop, tier string, seed int, verif string, dry bool) (code int) {
 	f, ok := registry[prop]
 	if !ok {
 		fmt.Printf("error: no rules registered for %s\n", prop)
 		return 2
 	}
 	r := core.NewRun(prop, tier, seed, verif, p)
+	r.Dry = dry
 	defer func() {
 		if e := recover(); e != nil {
 			r.Undecided("checker-panic", fmt.Sprint(e), "", "the checker panicked; verdict undecided")
@@ -27,5 +31,8 @@ func RunProperty(p *core.Program, prop, tier string, seed int, verif string) (co
 		}
 	}()
 	f(r)
+	if tier == "thorough" && !dry && SelfTestHook != nil {
+		SelfTestHook(r)
+	}
 	return r.Finish()
 }
